@@ -368,26 +368,38 @@ pub enum Fed {
 const TAG: &str = "<tag-for-request-two xmlns=\"urn:verif\">B-payload</tag-for-request-two>";
 
 /// Entry function shared with the fuzz targets: feed `bytes` as the server hello.
-pub fn feed_hello(bytes: &[u8]) -> Fed {
-    match catch(|| {
-        let wire = Wire::new();
-        establish_with(&wire, bytes)
-    }) {
-        Err((loc, msg)) => Fed::Panicked(loc, msg),
-        Ok(Establish::Stuck) => Fed::Stuck("session establishment"),
-        Ok(Establish::Ok(_)) => Fed::Returned {
+/// (No panic handling here: under libFuzzer a panic must abort the process.)
+pub fn feed_hello_raw(bytes: &[u8]) -> Fed {
+    let wire = Wire::new();
+    match establish_with(&wire, bytes) {
+        Establish::Stuck => Fed::Stuck("session establishment"),
+        Establish::Ok(_) => Fed::Returned {
             parsed_beyond_root: true,
         },
-        Ok(Establish::Err(e)) => Fed::Returned {
+        Establish::Err(e) => Fed::Returned {
             parsed_beyond_root: !format!("{e:?}").contains("DecodeMessage"),
         },
+    }
+}
+
+pub fn feed_hello(bytes: &[u8]) -> Fed {
+    match catch(|| feed_hello_raw(bytes)) {
+        Ok(f) => f,
+        Err((loc, msg)) => Fed::Panicked(loc, msg),
     }
 }
 
 /// Entry function shared with the fuzz targets: request A = `spec`, request B = a tagged
 /// get-config; `bytes` arrive first, then B's valid reply.
 pub fn feed_reply(spec: &ReqSpec, bytes: &[u8]) -> Fed {
-    let r = catch(|| {
+    match catch(|| feed_reply_raw(spec, bytes)) {
+        Ok(f) => f,
+        Err((loc, msg)) => Fed::Panicked(loc, msg),
+    }
+}
+
+pub fn feed_reply_raw(spec: &ReqSpec, bytes: &[u8]) -> Fed {
+    let r = (|| {
         let (mut sess, wire) = establish_caps(&all_caps());
         // request B first needs the session by reference; A may consume it (close-session), so
         // issue B first and A second; ids: B = 1, A = 2
@@ -453,11 +465,8 @@ pub fn feed_reply(spec: &ReqSpec, bytes: &[u8]) -> Fed {
                 Fed::OtherCallerBroken(format!("request B failed with {e:?} after the garbage was consumed by the first caller"))
             }
         }
-    });
-    match r {
-        Ok(f) => f,
-        Err((loc, msg)) => Fed::Panicked(loc, msg),
-    }
+    })();
+    r
 }
 
 pub fn render_base(base: &Base, style: &Style) -> Vec<u8> {
@@ -571,6 +580,265 @@ pub fn property() -> Property {
         parts: vec![
             Box::new(PropPart(Mutations)),
             Box::new(PropPart(crate::props::agent_parts::C14Agent)),
+            Box::new(FuzzPart),
         ],
     }
+}
+
+// ------------------------------------------------------------------ coverage-guided fuzzing
+
+/// The libFuzzer campaign (cargo-fuzz targets under /verif/fuzz call the same entry functions).
+/// Quick tier: the committed seed corpus is replayed in-process. Thorough tier: `cargo +nightly
+/// fuzz run` on every target with all cores under a wall-clock budget; any crash artifact is
+/// re-verified in-process before it is reported.
+pub struct FuzzPart;
+
+fn fuzz_dir() -> std::path::PathBuf {
+    crate::core::verif_root().join("fuzz")
+}
+
+/// run one raw input through the entry function of `target`; `Some(failure)` on a violation
+pub fn fuzz_one(target: &str, data: &[u8]) -> Option<(String, String)> {
+    let fed = match target {
+        "hello" => feed_hello(data),
+        "reply" => {
+            let Some((op, bytes)) = data.split_first() else {
+                return None;
+            };
+            let ops = ReqSpec::canonical();
+            feed_reply(&ops[*op as usize % ops.len()], bytes)
+        }
+        _ => {
+            let Some((which, bytes)) = data.split_first() else {
+                return None;
+            };
+            let cand = which & 1 == 0;
+            let b = bytes.to_vec();
+            match catch(move || crate::props::agent_parts::feed_agent_reader_raw(cand, &b)) {
+                Ok(Ok(())) => Fed::Returned {
+                    parsed_beyond_root: true,
+                },
+                Ok(Err(e)) => Fed::Stuck(Box::leak(e.into_boxed_str())),
+                Err((loc, msg)) => Fed::Panicked(loc, msg),
+            }
+        }
+    };
+    match fed {
+        Fed::Returned { .. } => None,
+        Fed::Panicked(loc, msg) => Some((format!("panic:{loc}"), format!("panic at {loc}: {msg}"))),
+        Fed::Stuck(w) => Some(("never-resolves".into(), format!("{w} never resolves"))),
+        Fed::OtherCallerBroken(m) => Some(("other-request-disturbed".into(), m)),
+    }
+}
+
+impl crate::core::Part for FuzzPart {
+    fn name(&self) -> &'static str {
+        "libfuzzer"
+    }
+    fn run(&self, ctx: &crate::core::RunCtx) -> crate::core::PartReport {
+        let start = std::time::Instant::now();
+        let mut rep = crate::core::PartReport {
+            name: "libfuzzer".into(),
+            rule: "coverage-guided fuzzing (cargo-fuzz / libFuzzer, nightly, debug assertions and overflow checks on) of three targets that call the same entry functions as the proptest parts: `hello` (bytes as the server hello), `reply` (first byte selects the operation, rest is the reply; a second outstanding request's valid reply must still be delivered), `agent_config` (bytes as the reply to the agent's get-config requests). Quick tier: in-process replay of the committed seed corpus; thorough tier: a campaign per target on all cores under a wall-clock budget, crash artifacts re-verified in-process. Non-trivial = an input that does not fail the UTF-8 check; distinct by input".into(),
+            ..Default::default()
+        };
+        let targets = ["hello", "reply", "agent_config"];
+        // seed corpus replay (both tiers)
+        for t in targets {
+            let dir = fuzz_dir().join("seeds").join(t);
+            let mut files: Vec<_> = std::fs::read_dir(&dir)
+                .map(|d| d.filter_map(Result::ok).map(|e| e.path()).collect())
+                .unwrap_or_default();
+            files.sort();
+            for f in files {
+                let Ok(data) = std::fs::read(&f) else { continue };
+                rep.evaluations += 1;
+                *rep.classes.entry(format!("seed:{t}")).or_default() += 1;
+                if std::str::from_utf8(&data).is_ok() {
+                    use std::hash::{Hash, Hasher};
+                    let mut h = std::collections::hash_map::DefaultHasher::new();
+                    (t, &data).hash(&mut h);
+                    if rep.nontrivial_hashes.insert(h.finish()) && rep.samples.len() < 3 {
+                        rep.samples.push(serde_json::json!({"target": t, "input": String::from_utf8_lossy(&data[..data.len().min(300)])}));
+                    }
+                }
+                if let Some((sig, msg)) = fuzz_one(t, &data) {
+                    if ctx.known.is_known(ctx.property, &sig) {
+                        *rep.known_hits.entry(sig).or_default() += 1;
+                    } else if rep.violation.is_none() {
+                        rep.violation = Some((sig, msg, serde_json::json!({"target": t, "bytes": data})));
+                    }
+                }
+            }
+        }
+        if ctx.tier == Tier::Thorough && rep.violation.is_none() {
+            let budget: u64 = std::env::var("VERIF_FUZZ_SECONDS")
+                .ok()
+                .and_then(|v| v.parse().ok())
+                .unwrap_or(300);
+            for t in targets {
+                let corpus = crate::core::verif_root().join("target").join("fuzz-corpus").join(t);
+                let _ = std::fs::create_dir_all(&corpus);
+                if let Ok(rd) = std::fs::read_dir(fuzz_dir().join("seeds").join(t)) {
+                    for e in rd.filter_map(Result::ok) {
+                        let _ = std::fs::copy(e.path(), corpus.join(e.file_name()));
+                    }
+                }
+                let art = crate::core::verif_root().join("target").join("fuzz-artifacts").join(t);
+                let _ = std::fs::remove_dir_all(&art);
+                let _ = std::fs::create_dir_all(&art);
+                let out = std::process::Command::new("cargo")
+                    .current_dir(crate::core::verif_root().join("harness"))
+                    .args(["+nightly", "fuzz", "run", "--fuzz-dir"])
+                    .arg(fuzz_dir())
+                    .arg(t)
+                    .arg(&corpus)
+                    .arg("--")
+                    .arg(format!("-max_total_time={budget}"))
+                    .arg(format!("-artifact_prefix={}/", art.display()))
+                    .args([
+                        "-timeout=20",
+                        "-rss_limit_mb=4096",
+                        "-len_control=0",
+                        "-max_len=8192",
+                        "-print_final_stats=1",
+                        &format!("-seed={}", ctx.seed.max(1) as u32),
+                        &format!("-dict={}", fuzz_dir().join("netconf.dict").display()),
+                        &format!("-fork={}", ctx.threads.clamp(1, 16)),
+                        "-ignore_crashes=0",
+                    ])
+                    .env("CARGO_NET_OFFLINE", "true")
+                    .output();
+                match out {
+                    Err(e) => {
+                        *rep.classes.entry(format!("campaign:{t}:could-not-start({e})")).or_default() += 1;
+                    }
+                    Ok(o) => {
+                        let log = format!(
+                            "{}{}",
+                            String::from_utf8_lossy(&o.stdout),
+                            String::from_utf8_lossy(&o.stderr)
+                        );
+                        let execs: u64 = log
+                            .lines()
+                            .filter_map(|l| l.strip_prefix("stat::number_of_executed_units:"))
+                            .filter_map(|v| v.trim().parse::<u64>().ok())
+                            .sum::<u64>()
+                            .max(
+                                log.lines()
+                                    .filter(|l| l.starts_with('#') && l.contains("exec/s"))
+                                    .filter_map(|l| l[1..].split_whitespace().next()?.trim_end_matches(':').parse::<u64>().ok())
+                                    .max()
+                                    .unwrap_or(0),
+                            );
+                        rep.evaluations += execs;
+                        *rep.classes.entry(format!("campaign:{t}:executions")).or_default() += execs;
+                        // artifacts = crashes / timeouts / ooms
+                        let mut arts: Vec<_> = std::fs::read_dir(&art)
+                            .map(|d| d.filter_map(Result::ok).map(|e| e.path()).collect())
+                            .unwrap_or_default();
+                        arts.sort();
+                        for a in arts {
+                            let Ok(data) = std::fs::read(&a) else { continue };
+                            let name = a.file_name().map(|n| n.to_string_lossy().to_string()).unwrap_or_default();
+                            // re-verify in-process (on a watched thread: a timeout artifact loops)
+                            let (t2, d2) = (t.to_string(), data.clone());
+                            let verdict = crate::core::with_watchdog(
+                                std::time::Duration::from_secs(30),
+                                move || fuzz_one(&t2, &d2),
+                            );
+                            let failure = match verdict {
+                                None => Some(("never-returns".to_string(), format!("artifact {name}: the call does not return within 30 s"))),
+                                Some(f) => f,
+                            };
+                            match failure {
+                                Some((sig, msg)) if !ctx.known.is_known(ctx.property, &sig) => {
+                                    if rep.violation.is_none() {
+                                        rep.violation = Some((sig, format!("{msg} (libFuzzer artifact {name})"), serde_json::json!({"target": t, "bytes": data})));
+                                    }
+                                }
+                                Some((sig, _)) => *rep.known_hits.entry(sig).or_default() += 1,
+                                None => {
+                                    *rep.classes.entry(format!("campaign:{t}:artifact-not-reproduced({name})")).or_default() += 1;
+                                }
+                            }
+                        }
+                    }
+                }
+                if rep.violation.is_some() {
+                    break;
+                }
+            }
+        }
+        rep.assumptions = vec!["libFuzzer campaigns are only approximately reproducible from -seed; the saved input is the reproducible unit".into()];
+        rep.wall_s = start.elapsed().as_secs_f64();
+        rep
+    }
+    fn replay(&self, case: &serde_json::Value) -> Result<Obs, String> {
+        let target = case["target"].as_str().ok_or("no target")?.to_string();
+        let bytes: Vec<u8> = serde_json::from_value(case["bytes"].clone()).map_err(|e| e.to_string())?;
+        let mut obs = Obs::default();
+        if let Some((sig, msg)) = fuzz_one(&target, &bytes) {
+            obs.fail(sig, msg);
+        }
+        Ok(obs)
+    }
+}
+
+/// write a seed corpus for the fuzz targets from the proptest generators (run once; committed)
+pub fn write_fuzz_seeds(n: usize) -> std::io::Result<usize> {
+    use proptest::strategy::{Strategy, ValueTree};
+    use proptest::test_runner::{Config, RngAlgorithm, TestRng, TestRunner};
+    let mut runner = TestRunner::new_with_rng(
+        Config::default(),
+        TestRng::from_seed(RngAlgorithm::ChaCha, &[7u8; 32]),
+    );
+    let mut count = 0;
+    let strat = Mutations.strategy(Tier::Quick);
+    let base = fuzz_dir().join("seeds");
+    for t in ["hello", "reply", "agent_config"] {
+        std::fs::create_dir_all(base.join(t))?;
+    }
+    let mut i = 0;
+    while count < n && i < n * 20 {
+        i += 1;
+        let Ok(tree) = strat.new_tree(&mut runner) else { continue };
+        let mut case = tree.current();
+        case.mutations.truncate(1);
+        let mut bytes = render_base(&case.base, &case.style);
+        for m in &case.mutations {
+            bytes = apply(bytes, m);
+        }
+        if bytes.len() > 4000 {
+            continue;
+        }
+        let (t, data) = match &case.base {
+            Base::Hello(_) => ("hello", bytes),
+            Base::Reply { op, .. } => {
+                let mut d = vec![*op];
+                d.extend(bytes);
+                ("reply", d)
+            }
+            Base::Raw(_) => continue,
+        };
+        std::fs::write(base.join(t).join(format!("seed-{count:04}")), data)?;
+        count += 1;
+    }
+    // agent configuration seeds
+    let astrat = crate::props::agent_parts::C14Agent.strategy(Tier::Quick);
+    let mut k = 0;
+    while k < n / 3 {
+        let Ok(tree) = astrat.new_tree(&mut runner) else { continue };
+        let case = tree.current();
+        let (bytes, cand) = crate::props::agent_parts::render_garbage(&case);
+        if bytes.len() > 6000 {
+            continue;
+        }
+        let mut d = vec![u8::from(!cand)];
+        d.extend(bytes);
+        std::fs::write(base.join("agent_config").join(format!("seed-{k:04}")), d)?;
+        k += 1;
+        count += 1;
+    }
+    Ok(count)
 }
